@@ -23,6 +23,10 @@ type lineLimitReader struct {
 	// over the limit.
 	held []byte
 
+	// heldErr is the error R returned together with what is in held; it is
+	// passed on with the last of it.
+	heldErr error
+
 	// skip is the number of octets still to come that are not lines but the
 	// rest of a BDAT chunk: they are passed on without being looked at.
 	skip int64
@@ -60,19 +64,24 @@ func (r *lineLimitReader) Read(b []byte) (int, error) {
 	}
 
 	var n int
+	// rerr is the error R returned together with the data of this Read (a
+	// Reader may return both): the data is looked at like any other.
+	var rerr error
 	if len(r.held) > 0 {
 		n = copy(b, r.held)
 		r.held = r.held[n:]
+		if len(r.held) == 0 {
+			rerr, r.heldErr = r.heldErr, nil
+		}
 	} else {
-		var err error
-		n, err = r.R.Read(b)
-		if err != nil {
-			return n, err
+		n, rerr = r.R.Read(b)
+		if n == 0 {
+			return 0, rerr
 		}
 	}
 
 	if r.LineLimit == 0 {
-		return n, nil
+		return n, rerr
 	}
 
 	// Chunk data comes first, it is handed out as it is.
@@ -100,6 +109,9 @@ func (r *lineLimitReader) Read(b []byte) (int, error) {
 				// commands that have to be answered). The rest is looked
 				// at again by the next Read.
 				r.held = append(append([]byte(nil), b[lineStart:n]...), r.held...)
+				if rerr != nil {
+					r.heldErr = rerr
+				}
 				r.curLineLength = 0
 				if b[lineStart-1] == '\n' {
 					r.curLineLength = 1
@@ -110,5 +122,5 @@ func (r *lineLimitReader) Read(b []byte) (int, error) {
 		}
 	}
 
-	return n, nil
+	return n, rerr
 }
